@@ -18,6 +18,7 @@ fn base_plan(first: Vec<Place>) -> Plan {
         extra: vec![],
         drops: 0,
         hello: sched::default_hello(),
+        reply_pad: vec![],
     }
 }
 
@@ -155,6 +156,12 @@ fn gen_plan(r: &mut Prng, c18: bool) -> Plan {
             if r.chance(1, 2) {
                 plan.block_after_write.push(a);
             }
+        }
+    }
+    // large replies (a configuration dump runs to megabytes): behaviour must not depend on size
+    if !cfg!(miri) && r.chance(1, 6) {
+        for _ in 0..r.range(1, 3) {
+            plan.reply_pad.push(*r.pick(&[0usize, 3_000, 70_000, 70_000, 300_000]));
         }
     }
     if c18 {
@@ -299,6 +306,14 @@ pub fn run(cfg: &Cfg, c18: bool) -> i32 {
                     p.late = 1;
                 }
                 plans.push((format!("n{n}-{place:?}"), p.clone()));
+                if n == 2 && !miri && place != Place::Seq {
+                    // replies larger than any buffer or size threshold in the receive path
+                    let mut big = p.clone();
+                    big.reply_pad = vec![70_000, 300];
+                    plans.push((format!("n{n}-{place:?}-large-first-reply"), big.clone()));
+                    big.reply_pad = vec![300, 70_000];
+                    plans.push((format!("n{n}-{place:?}-large-second-reply"), big));
+                }
                 if n <= 2 {
                     // with the last rpc's send blocked: exposes the suspension point between
                     // "reply read" and "reply parked" (rpc() holds the requests lock while sending)
